@@ -16,7 +16,7 @@ LEVEL_TEXT = ("For even N up to 16 (quick) / 32 (thorough) the full Jacobian of 
               "observed on the real code, so the exact ensemble covariance between all pixel pairs is compared with the inverse discrete "
               "Fourier sum of the modified von Karman spectrum (1e-12); zero response to zero draws, linearity, the r0^(-5/6) law, the draw "
               "requests themselves (two N x N standard normals, plus six 3 x 3), the FFT= hook, families of calls that share (N, delta, L0) "
-              "but differ in r0 / l0 within one process, the sub-harmonic increment (exactly the low-frequency sum, never negative) and a "
+              "but differ in r0 / l0 within one process (incl. l0 > L0 and L0 = inf), integer seeds tied to the probed ensemble (seed=s must equal seed=default_rng(s), with and without the FFT= hook), the sub-harmonic increment (exactly the low-frequency sum, never negative) and a "
               "refinement ladder against the analytic structure function. Exploration over parameters; exact over draws.")
 LEVEL_NOTE = ("Trusted: the explicit Fourier sum in aomon/oracles/screen.py, NumPy. Integer seeds cannot be scripted; they are tied to the "
               "probed ensemble by demanding that seed=s gives the same screen as seed=numpy.random.default_rng(s) (one independent stream).")
